@@ -208,3 +208,117 @@ class FlushArchive(Contract):
             ("folder-gets-the-coder-unpack-sizes", bool(len(fu) == 1) and (eq(fu[0].args[0], attr(comp, "unpacksizes")) if len(fu) == 1 and comp is not None else False), ("C07",)),
         ]
         return out
+
+
+# ================================================================================================== Header.initialize
+@contract
+class HeaderInitialize(Contract):
+    """first write of a session.  Append mode (main_streams parsed from the existing archive): ONE new folder is added
+    at the END of the folder list, the folder count grows by one and a zero unpack-stream counter is appended for it -
+    nothing that describes the old members is touched.  Create mode: a header with exactly one folder, no pack
+    streams, no members.  Later calls return the folder opened by the first one."""
+
+    target = "py7zr.archiveinfo:Header.initialize"
+    props = ("C08", "C07")
+    abstract = True
+    stable_attrs = ("password", "filters")
+    noraise = ("append", "Folder", "FilesInfo", "StreamsInfo", "PackInfo", "UnpackInfo", "SubstreamsInfo", "len")
+    frame_preserving = ("append", "Folder", "FilesInfo", "StreamsInfo", "PackInfo", "UnpackInfo", "SubstreamsInfo", "prepare_coderinfo", "len")
+    assumptions = ("constructors of the header record classes and Folder.prepare_coderinfo touch only the object they build / the new folder",)
+
+    def setup(self, c):
+        me = c.opq("self")
+        ms = attr(me, "main_streams")
+        # precondition (established by StreamsInfo.read since the repair FX14, and by create mode itself): a header with
+        # main streams has folder information and a SubStreamsInfo object
+        c.assume(Or(eq(ms, None), And(Not(eq(attr(ms, "unpackinfo"), None)), Not(eq(attr(ms, "substreamsinfo"), None)))))
+        return {"self_": me}
+
+    def raises(self):
+        return [RaiseSpec("Exception")]
+
+    def ensures(self, c, old, result, **b):
+        eng = c.eng
+        if eng.ctx_mode == "assume":
+            return []
+        me = b["self_"]
+        mk = [e for e in eng.trace if e.kind == "call" and e.name.split(":")[-1].split(".")[-1] == "Folder"]
+        apps = [e for e in eng.trace if e.kind == "call" and e.name.endswith("append")]
+        sets = [e for e in eng.trace if e.kind == "setattr"]
+        if not mk:
+            # a later call of the session: nothing may be modified
+            return [("later-calls-change-nothing", bool(not apps and not sets))]
+        folder = mk[-1].result
+        out = [("returns-the-new-folder", bool(result is folder))]
+        ms_sets = [e for e in sets if e.name == "main_streams" and e.recv is me]
+        if ms_sets:
+            # create mode
+            fsets = [e for e in sets if e.name == "folders"]
+            nsets = [e for e in sets if e.name == "num_unpackstreams_folders"]
+            ok_f = bool(fsets) and isinstance(fsets[-1].args[0], Ref) and eng.kind(fsets[-1].args[0]) == "list" and eng.static_items(fsets[-1].args[0]) == [folder]
+            last_n = nsets[-1].args[0] if nsets else None
+            ok_n = isinstance(last_n, Ref) and eng.kind(last_n) == "list" and eng.static_items(last_n) == [0]
+            out.append(("new-header-has-exactly-the-new-folder", bool(ok_f)))
+            out.append(("new-header-counts-no-unpack-streams-yet", bool(ok_n)))
+            return out
+        # append mode: the parsed header is extended in place
+        ms = attr(me, "main_streams")
+        up = attr(ms, "unpackinfo")
+        ss = attr(ms, "substreamsinfo")
+        f_app = [e for e in apps if e.args and e.args[0] is folder]
+        n_app = [e for e in apps if e.args and not V.is_sym(e.args[0]) and e.args[0] == 0]
+        nf = [e for e in sets if e.name == "numfolders"]
+        touched = [e for e in sets if e.name not in ("numfolders", "_initialized", "password")] + [e for e in apps if e not in f_app and e not in n_app]
+        out += [
+            ("folder-appended-at-the-end-of-the-folder-list", bool(len(f_app) == 1) and (eq(f_app[0].recv, attr(up, "folders")) if len(f_app) == 1 else False)),
+            ("folder-count-grows-by-one", bool(len(nf) == 1) and (eq(nf[0].recv, up) if len(nf) == 1 else False)),
+            ("zero-stream-counter-appended-for-the-new-folder", bool(len(n_app) == 1) and (eq(n_app[0].recv, attr(ss, "num_unpackstreams_folders")) if len(n_app) == 1 else False)),
+            ("nothing-else-of-the-parsed-header-is-touched", bool(not touched)),
+        ]
+        return out
+
+
+# ================================================================================================== Worker._after_write
+@contract
+class AfterWrite(Contract):
+    """bookkeeping after one member was compressed: exactly one size, one CRC and one defined-flag are APPENDED to the
+    substream lists (old entries stay), and the stream counter of the LAST folder - the one this session writes to -
+    grows by one"""
+
+    target = PY + "Worker._after_write"
+    props = ("C08", "C07", "C01")
+    abstract = True
+    stable_attrs = ("header", "main_streams", "substreamsinfo", "digestsdefined", "digests")
+    noraise = ("append",)
+    frame_preserving = ("append",)
+
+    def setup(self, c):
+        return {"self_": c.opq("self"), "insize": c.opq("insize"), "foutsize": c.opq("foutsize"), "crc": c.opq("crc")}
+
+    def raises(self):
+        return [RaiseSpec("Exception")]
+
+    def ensures(self, c, old, result, **b):
+        eng = c.eng
+        if eng.ctx_mode == "assume":
+            return []
+        me = b["self_"]
+        ss = attr(attr(attr(me, "header"), "main_streams"), "substreamsinfo")
+        apps = [e for e in eng.trace if e.kind == "call" and e.name.endswith("append")]
+        sets = [e for e in eng.trace if e.kind == "setattr"]
+        items = [e for e in eng.trace if e.kind == "setitem"]
+        a_dd = [e for e in apps if e.args and e.args[0] is True]
+        a_crc = [e for e in apps if e.args and e.args[0] is b["crc"]]
+        a_sz = [e for e in apps if e.args and e.args[0] is b["insize"]]
+        s_sz = [e for e in sets if e.name == "unpacksizes"]
+        s_n = [e for e in sets if e.name == "num_unpackstreams_folders"]
+        size_ok = (len(a_sz) == 1 and not s_sz) or (len(s_sz) == 1 and not a_sz and isinstance(s_sz[0].args[0], Ref) and eng.static_items(s_sz[0].args[0]) == [b["insize"]])
+        cnt_ok = (len(items) == 1 and not s_n and not V.is_sym(items[0].args[0]) and items[0].args[0] == -1) or (len(s_n) == 1 and not items)
+        return [
+            ("one-defined-flag-appended", bool(len(a_dd) == 1) and (eq(a_dd[0].recv, attr(ss, "digestsdefined")) if len(a_dd) == 1 else False)),
+            ("the-member-crc-appended", bool(len(a_crc) == 1) and (eq(a_crc[0].recv, attr(ss, "digests")) if len(a_crc) == 1 else False)),
+            ("the-member-size-appended", bool(size_ok)),
+            ("last-folder-counter-incremented", bool(cnt_ok)),
+            ("returns-packed-size-and-crc", bool(isinstance(result, tuple) and len(result) == 2 and result[0] is b["foutsize"] and result[1] is b["crc"])),
+            ("nothing-else-modified", bool(len(apps) == len(a_dd) + len(a_crc) + len(a_sz) and len(sets) == len(s_sz) + len(s_n))),
+        ]
